@@ -69,7 +69,10 @@ class LMEPersonalizeAlgorithm(PersonalizeAlgorithm[LMEModel, IndividualParameter
             "ages_std"
         ]
 
-        X = sm.add_constant(ages_norm, prepend=True, has_constant="add")
+        # design matrix [1, age]; built by hand since `sm.add_constant` fails on an individual without any observation
+        # (for which the conditional mean of random effects is then 0, i.e. the population mean)
+        ages_norm = np.asarray(ages_norm, dtype=float).reshape(-1)
+        X = np.column_stack([np.ones_like(ages_norm), ages_norm])
         residuals = values - X @ model.parameters["fe_params"]
 
         cov_re_unscaled_inv = model.parameters["cov_re_unscaled_inv"]
